@@ -508,11 +508,6 @@ func countVac(obls []*Obligation) int {
 	return n
 }
 
-// replay: placeholder until function-level replay is available for the obligation's function.
-func (eng *Engine) replay(o *Obligation) (status string, text string) {
-	return "not attempted", "no replay harness for this function class; the obligation name and the solver output identify the violated contract clause"
-}
-
 // runInventories: mechanical whole-module inventories a property relies on; each is an obligation decided by evaluation.
 func (eng *Engine) runInventories(names []string) []*Obligation {
 	var out []*Obligation
